@@ -27,7 +27,7 @@ else
   rm -f "$PKG/zz_seed_demo_test.go"
 fi
 echo "$ID $NM CONFIRM: ok"
-echo "$ID $NM applied: $(git diff --stat | tail -1)"; cd /verif && VERIF_REPO=$WT ./check "$ID" --tier "$TIER" >"$SD/check.log" 2>&1; RC=$?
+echo "$ID $NM applied: $(git diff --stat | tail -1)"; cd /verif && VERIF_OUT=/tmp/seed/out VERIF_REPO=$WT ./check "$ID" --tier "$TIER" >"$SD/check.log" 2>&1; RC=$?
 git -C "$WT" checkout -q -- .; git -C "$WT" clean -fdq
 grep -E "^(VIOLATION|KNOWN-FINDING|INFRA|C[0-9]+ )" "$SD/check.log" | cut -c1-200 | head -6
 echo "$ID $NM TRY: exit $RC"
